@@ -497,3 +497,16 @@ SPECIAL = [
     "SHOW TABLES",
     "DESCRIBE t",
 ]
+
+
+def wide_statements(tier="quick"):
+    """very wide parents (lists far beyond the pools' work-queue limit of 1000)"""
+    out = []
+    for n in ([1100, 2500] if tier == "quick" else [1100, 2500, 20000]):
+        out.append("SELECT * FROM t WHERE x IN (" + ", ".join("a%d + %d" % (i, i) for i in range(n)) + ")")
+        out.append("SELECT f(" + ", ".join("a%d * 2" % i for i in range(n)) + ") FROM t")
+        out.append("SELECT " + ", ".join("a%d + b%d" % (i, i) for i in range(n)) + " FROM t")
+        out.append("SELECT ARRAY[" + ", ".join("a%d - 1" % i for i in range(n)) + "], (" + ", ".join("c%d || 'x'" % i for i in range(n)) + ") FROM t")
+        out.append("INSERT INTO t (a, b) VALUES " + ", ".join("(%d + 1, 'v%d')" % (i, i) for i in range(n)))
+        out.append("SELECT CASE " + " ".join("WHEN a = %d THEN b + %d" % (i, i) for i in range(n)) + " END FROM t")
+    return out
